@@ -187,7 +187,8 @@ class SimSocket(object):
     def shutdown(self, how):
         if self.closed:
             raise OSError(errno.EBADF, 'Bad file descriptor (simulated)')
-        if self.shut or not self.world.run.link.connected:
+        if self.shut or not self.world.run.link.connected or self.world.run.link.dead == 'reset':
+            # after the peer's RST the kernel has already torn the connection down
             raise OSError(errno.ENOTCONN, 'Transport endpoint is not connected (simulated)')
         self.shut = True
 
@@ -288,7 +289,8 @@ class TcpWorld(object):
             raise ValueError('timeout must be non-negative')
         link = self.run.link
         self.waiter.yield_point('select')
-        link.device._check_stall(self.clock.now)
+        if link.cur is None:
+            link.device._check_stall(self.clock.now)
         self.clock.advance(link.call_cost)
         deadline = None if timeout is None else self.clock.now + timeout
         while True:
@@ -475,8 +477,9 @@ class SimAioTransport(asyncio.Transport):
         if self.paused_writing and len(self.pipe.buf) <= self.low:
             self.paused_writing = False
             self.protocol.resume_writing()
-        link.device._check_stall(now)
-        if link.device.stalled and link.device.stall.get('kind') == 'eof' and not self.paused_reading:
+        if link.cur is None:
+            link.device._check_stall(now)
+        if link.cur is None and link.device.stalled and link.device.stall.get('kind') == 'eof' and not self.paused_reading:
             self.protocol.eof_received()
             return
         # deliver what is on the wire now, fragment by fragment
@@ -523,6 +526,13 @@ async def _conn_factory(loop, protocol_factory, host, port, scn=None, run=None):
         link.connects += 1
         link.log.ev('connect', 0, what)
         await asyncio.sleep(1e9)
+    for old in getattr(run, 'aio_transports', []):
+        # the Link models one connection: a transport of an earlier connection is dead from now on
+        if not old.closed:
+            old.closed = True
+            old.closing = True
+            if old._timer is not None:
+                old._timer.cancel()
     link.connect(None, 0)
     protocol = protocol_factory()
     tr = SimAioTransport(loop, protocol, run, scn.get('tcp', {}))
